@@ -44,6 +44,10 @@ def scenarios(rng, tier):
             # the attributes change while the session goes on: the next Hello must carry the current ones
             kw2 = dict(kw); kw2.update(ipv4=rng.randrange(2 ** 32), speed=rng.choice(B32), flags=rng.randrange(65536), ipv6=bytes(rng.randrange(256) for _ in range(16)))
             if wifi: kw2.update(rssi=rng.choice([-128, -50, 0, 127]), rate=rng.randrange(65536), bssid=bytes(rng.randrange(256) for _ in range(6)))
+            if k % 8 == 0:
+                # the medium itself changes under the same interface (wired <-> wireless): the next Hello follows it
+                if wifi: kw2.update(wifi=None)
+                else: kw2.update(wifi=rng.choice([0, 1, 2]), bssid=bytes(rng.randrange(256) for _ in range(6)), ssid=b'net-%d' % k, rate=rng.randrange(65536), rssi=-60)
             s.lines.append(Cfg(0, **kw2).line())
             s.lines.append(gline(host=bytes(rng.choice([0, 0, rng.randrange(256), rng.randrange(1, 256)]) for _ in range(rng.randrange(41))), retfull=rng.randrange(2)))
             s.frame(0, discover(mac(1), tos=rng.choice([0, 1]), gen=rng.randrange(65536)))
